@@ -55,6 +55,12 @@ def afterLastAux (sep : Str) : Nat → Str → Str → Str
 
 def afterLast (sep s : Str) : Str := afterLastAux sep (s.length + 1) s s
 
+/-- the value of `i` after `for i in range(len(s)): if not p(s[i]): break` on a NON-EMPTY `s` (second argument: the index reached):
+    the first index whose character fails `p`, or `len(s) - 1` when none does -/
+def forBreakIdx (p : Char → Bool) : List Char → Nat → Nat
+  | [], i => i - 1
+  | c :: cs, i => if p c then forBreakIdx p cs (i + 1) else i
+
 /-! ### dict built from a list of pairs (`dict(map(...))`): insertion order, a later pair overwrites an earlier one -/
 
 abbrev Dict := List (Str × Str)
